@@ -112,7 +112,9 @@ class SymClient(Client):
                 if b == ("self",) and ("h", x.attr) in env:
                     return env[("h", x.attr)]            # a field of the receiver stored earlier on this path
                 if x.attr in normalise.REBOUND_ATTRS or "*" in normalise.REBOUND_ATTRS or not normalise._REBOUND_KNOWN:
-                    return ("attr", b, x.attr, ver)
+                    # a field of the receiver changes by a store on this path (then it is in the heap map above) or inside a
+                    # callee that was not followed; other objects' fields by any heap write
+                    return ("attr", b, x.attr, env.get(("$havoc",), 0) if b == ("self",) else ver)
                 return ("attr", b, x.attr)
             if isinstance(x, ast.Subscript):
                 b, i = go(x.value), go(x.slice)
@@ -122,7 +124,38 @@ class SymClient(Client):
             if isinstance(x, ast.Slice):
                 return ("slice", go(x.lower), go(x.upper), go(x.step))
             if isinstance(x, (ast.Tuple, ast.List)) and not any(isinstance(el, ast.Starred) for el in x.elts):
-                return ("tuple",) + tuple(go(el) for el in x.elts)
+                return ("tuple" if isinstance(x, ast.Tuple) else "list",) + tuple(go(el) for el in x.elts)
+            if isinstance(x, ast.Dict) and all(k is not None for k in x.keys):
+                return ("dict",) + tuple((go(k), go(v)) for k, v in zip(x.keys, x.values))
+            if isinstance(x, (ast.ListComp, ast.SetComp, ast.GeneratorExp, ast.DictComp)) and len(x.generators) == 1 \
+                    and not x.generators[0].is_async:
+                g = x.generators[0]
+                loop_id = ("comp",) + _site(x)
+                saved = {}
+                it_term = self.iteration_term(g.iter, loop_id, env, ver, ctx)
+                names = []
+
+                def bind(tgt, term):
+                    if isinstance(tgt, ast.Name):
+                        names.append(tgt.id)
+                        saved.setdefault(tgt.id, env.get((d, tgt.id)))
+                        env[(d, tgt.id)] = term
+                    elif isinstance(tgt, (ast.Tuple, ast.List)):
+                        for i, el in enumerate(tgt.elts):
+                            bind(el, term[1 + i] if term[0] in ("tuple", "list") and len(term) - 1 == len(tgt.elts)
+                                 else ("sub", term, ("c", i), ver))
+                bind(g.target, it_term)
+                try:
+                    elts = (go(x.key), go(x.value)) if isinstance(x, ast.DictComp) else (go(x.elt),)
+                    conds = tuple(go(c) for c in g.ifs)
+                finally:
+                    for nm in names:
+                        if saved.get(nm) is None:
+                            env.pop((d, nm), None)
+                        else:
+                            env[(d, nm)] = saved[nm]
+                kind = {"ListComp": "list", "SetComp": "set", "GeneratorExp": "gen", "DictComp": "dict"}[type(x).__name__]
+                return ("comp", kind, elts, go(g.iter), conds, loop_id)
             if isinstance(x, ast.UnaryOp) and isinstance(x.op, ast.USub) and isinstance(x.operand, ast.Constant) \
                     and isinstance(x.operand.value, (int, float)) and not isinstance(x.operand.value, bool):
                 return ("c", -x.operand.value)
@@ -147,6 +180,11 @@ class SymClient(Client):
                     args = tuple(go(a) for a in x.args) + tuple((k.arg, go(k.value)) for k in x.keywords)
                     heap_free = all(a in self.frozen or a[0] in ("c", "p", "call") for a in args)
                     return ("call", fname, args, 0 if heap_free else ver)
+                if fname is not None and not any(isinstance(a, ast.Starred) for a in x.args):
+                    # a call with effects: its result is a value of its own (per site and heap version), but it is known what made it
+                    recv = go(x.func.value) if isinstance(x.func, ast.Attribute) else None
+                    args = tuple(go(a) for a in x.args) + tuple((k.arg, go(k.value)) for k in x.keywords)
+                    return ("eff", x.func.attr if isinstance(x.func, ast.Attribute) else fname, recv, args, _site(x), ver)
             return ("opq",) + _site(x) + (ver,)
         return go(e)
 
@@ -185,12 +223,18 @@ class SymClient(Client):
         while isinstance(p, (ast.Tuple, ast.List)):
             path.append([i for i, el in enumerate(p.elts) if el is n][0])
             n, p = p, getattr(p, "_parent", None)
+        if isinstance(p, ast.withitem) and p.optional_vars is n and not path:
+            # `with E as x`: for the objects this is used on (files, temporary files, managers' proxies) __enter__ returns the
+            # object itself; the target reads as E
+            return self.sym(p.context_expr, env, ver, ctx)
         if not (isinstance(p, (ast.For, ast.comprehension)) and p.target is n):
             return None
         loop_id = getattr(p, "lineno", None) or getattr(p.iter, "lineno", 0)
-        t = self.iteration_term(p.iter, loop_id, env, ver, ctx)
+        t = env.get(("$itt", self.depth(ctx), loop_id)) if isinstance(p, ast.For) else None
+        if t is None:
+            t = self.iteration_term(p.iter, loop_id, env, ver, ctx)
         for i in reversed(path):
-            if t[0] == "tuple" and i < len(t) - 1:
+            if t[0] in ("tuple", "list") and i < len(t) - 1:
                 t = t[1 + i]
             else:
                 t = ("sub", t, ("c", i), ver)
@@ -308,7 +352,7 @@ class SymClient(Client):
                         if whole is not None:
                             wt = self.sym(whole, env, ver, ctx)
                             idx = [i for i, el in enumerate(par.elts) if el is node]
-                            if wt[0] == "tuple" and idx and len(wt) - 1 == len(par.elts):
+                            if wt[0] in ("tuple", "list") and idx and len(wt) - 1 == len(par.elts):
                                 t = wt[1 + idx[0]]
                             elif idx:
                                 t = ("sub", wt, ("c", idx[0]), ver)
@@ -360,12 +404,31 @@ class SymClient(Client):
                     ver = VER_CAP
                     for k in [k for k in env if k[0] == "h"]:
                         del env[k]
+                    env[("$havoc",)] = ver
+                changed = True
+        elif kind == "iter":
+            # the iterated expression is evaluated once, in front of the loop: its term is fixed here
+            par = getattr(node, "_parent", None)
+            if isinstance(par, ast.For) and par.iter is node:
+                env[("$itt", d, par.lineno)] = self.iteration_term(node, par.lineno, env, ver, ctx)
                 changed = True
         elif kind in ("call", "construct", "proto_call") and isinstance(node, ast.Call):
             if self._writes(node, ctx):
                 ver = min(VER_CAP, ver + 1)
-                for k in [k for k in env if k[0] == "h"]:
-                    del env[k]                         # an unknown callee may have re-bound any field
+                # the callee can re-bind fields of the receiver only if it can reach the receiver: it is one of the repository's
+                # functions (not followed here), or the receiver itself is handed to it
+                tgt = None
+                try:
+                    tgt = ctx.scope.resolve_call(node)
+                except Exception:
+                    pass
+                hands_self = any(self.sym(a.value if isinstance(a, ast.Starred) else a, env, ver, ctx) == ("self",) for a in node.args) \
+                    or any(self.sym(k.value, env, ver, ctx) == ("self",) for k in node.keywords) \
+                    or (isinstance(node.func, ast.Attribute) and self.sym(node.func.value, env, ver, ctx) == ("self",))
+                if tgt is not None or hands_self:
+                    for k in [k for k in env if k[0] == "h"]:
+                        del env[k]
+                    env[("$havoc",)] = ver
                 changed = True
         r = self.on(kind, node, env, ver, user, ctx)
         if r is None:
